@@ -582,6 +582,11 @@ class Unit:
             if not any('loop_invariant_step' in n for n in res.obligations):
                 res.status = 'undecided'
                 res.reason = 'loop contract supplied but no loop_invariant_step obligation was generated'
+        if res.status == 'failed' and any(k.startswith('L-static(') for k in info['lowerings']):
+            bad = [n for n, (st, d, l) in res.obligations.items() if st == 'FAILURE']
+            res.status = 'undecided'
+            res.reason = ('obligation(s) %s fail for an arbitrary entry value of a function-local static (L-static); whether the values '
+                          'earlier calls can leave there exclude the failing one is not decided' % ', '.join(bad[:4]))
         canary_ok = None
         if it.canary and res.status == 'ok':
             # vacuity guard: the planted false assertion at the end of the harness must FAIL (and only it)
